@@ -843,6 +843,9 @@ func pairScenarios() []d1x.Scenario {
 }
 
 func scenarios1(prop string) []d1x.Scenario {
+	if prop == "C22-conc" {
+		return crashConcScenarios()
+	}
 	if prop == "C07-conc" {
 		// C07 at DB level for the paths the commit-pipeline seam does not contain: ingestion allocates
 		// its sequence number through AllocateSeqNum and, when it overlaps the memtable, writes its own
